@@ -41,6 +41,10 @@ def check(run, project):
         run.ob("T1", not bad, f"send(byte) at L{node.lineno} never pushes a byte twice",
                f"the look-ahead byte is pushed again after it was consumed (states {bad})", module=mod, node=node,
                func=fn.name, construct=norm(node.ast))
+        bad0 = [s for s in states if s[0] == "EMPTY"]
+        run.ob("T1", not bad0, f"send(byte) at L{node.lineno} never pushes the exhausted-source marker",
+               f"the look-ahead variable is pushed although it holds the None that marks an exhausted source (states {bad0})",
+               module=mod, node=node, func=fn.name, construct=norm(node.ast) + " [marker]")
         # the processor must be waiting for a byte
         bad2 = [s for s in states if s[2] != "NONE"]
         run.ob("T1", not bad2, f"send(byte) at L{node.lineno} only when the processor asked for a byte",
@@ -117,6 +121,11 @@ def check(run, project):
     run.floor("T1", 8)
     run.floor("T2", 4)
     run.floor("T3", 3)
+    # T5: a prefix that ends before the first field (the empty input) of a non-stream decode must report depletion like every
+    # other prefix; the pump's silent end-of-input return is only for the command/response stream (C05-E3 re-used)
+    from ..report import RuleView
+    from . import c05
+    c05.check(RuleView(run, "E3", "T5"), project)
 
 
 def is_attach_use(name_node, stmt, fn):
